@@ -85,6 +85,19 @@ PROPS = {
                          "each key value is sampled by the harness with the same std hasher and passed to the model)"],
         "assumptions": ["the frequency clause of `random` is statistical: sampled, not proved; the counter wrap at 2^64 selections is stated (rr_wrap) and not exercised"],
     },
+    "C06": {
+        "props_module": "Redproxy.Props.C06",
+        "mode": "c06",
+        "rule": "real http and socks listeners (incl. one that requires credentials) on loopback + the real dispatcher / process_request + recording "
+                "upstreams; a raw TCP client per case: protocol {HTTP CONNECT, SOCKS4/4a, SOCKS5} x 6 targets (domain, IPv4, IPv6, 1-char and 200-char "
+                "hosts, port 65535) x outcome {established, explicit deny, no rule, unsupported feature, upstream refused, BIND, UDP ASSOCIATE "
+                "disallowed, unknown command, bad credentials} x {with, without early data glued to the handshake}; every byte until EOF is recorded; "
+                "non-trivial = every case; distinct = distinct case lines (outcome classes collapse in the model's input: measured on the lines)",
+        "nontrivial": lambda c, i: True,
+        "trusted_base": ["reply model Redproxy/Model/Reply.lean (callbacks as reply programs over the BufWriter model, folded over the process_request "
+                         "effect trace) tied to the real listeners by exact byte correspondence; the error text of the 503 body is an input of the model"],
+        "assumptions": ["loopback TCP delivers in order; 3 s is enough for the proxy to reply and close"],
+    },
     "C08": {
         "props_module": "Redproxy.Props.C08",
         "mode": "c08",
